@@ -298,6 +298,23 @@ def run(ctx, eng):
                 op[2][1][0] == 'comp' and op[2][1][2] == ('p', 'frames')
     ctx.ob('FLOW.emit', fp.qual, 'frames serialised in list order', ok,
            'b"".join(f.serialize() for f in frames) appended', node=fp.node)
+    # the size check reads Frame.body_len, which hyperframe fills in inside
+    # serialize() (it is 0 until then): a check placed before the
+    # serialisation compares 0 with the limit and never fires
+    ser_at = chk_at = None
+    for i, st in enumerate(fp.node.body):
+        txt = ast.unparse(st)
+        if '.serialize(' in txt and ser_at is None:
+            ser_at = i
+        if 'body_len' in txt and isinstance(st, (ast.Assert, ast.If)) and \
+                chk_at is None:
+            chk_at = i
+    ctx.ob('ORD.size-check', fp.qual, 'body_len is read after serialize()',
+           chk_at is None or (ser_at is not None and ser_at <= chk_at),
+           'the size check on Frame.body_len precedes the serialisation '
+           'that sets it' if chk_at is not None and (
+               ser_at is None or ser_at > chk_at) else
+           'checked after serialisation (or no such check)', node=fp.node)
     ctx.assume('that hyperframe serialises a frame object correctly and '
                'HPACK output are trusted; "parses with an independent '
                'decoder" as such is not decided')
